@@ -335,9 +335,12 @@ func ResolveStateConflictsV2New(
 	// First of all, work through the full conflicted set. Ignoring any
 	// events which are unconflicted (from the auth difference, for example),
 	// pull in the control events and any events directly related to them.
+	// v2.1 starts from the empty state: there the events of the unconflicted state that lie in
+	// the conflicted subgraph or the auth difference have to be replayed like all the others.
+	skipUnconflicted := stateResAlgo == StateResV2
 	conflictedPulledIn := make(map[string]struct{}, len(conflicted)+len(authEvents))
 	for _, p := range fullConflictedSet {
-		if unconflictedSet.Contains(p) {
+		if skipUnconflicted && unconflictedSet.Contains(p) {
 			continue
 		}
 		if isControlEvent(p) {
@@ -353,7 +356,7 @@ func ResolveStateConflictsV2New(
 	// that were left over from the last loop — that is, events that are
 	// either not control events or weren't pulled in to the control set.
 	for _, p := range fullConflictedSet {
-		if unconflictedSet.Contains(p) || isControlEvent(p) {
+		if (skipUnconflicted && unconflictedSet.Contains(p)) || isControlEvent(p) {
 			continue
 		}
 		if _, ok := conflictedPulledIn[p.EventID()]; !ok {
